@@ -63,6 +63,7 @@ structure HMon where
   cap : Nat
   r : R := Sodg.R.empty
   judged : Bool := true       -- still inside the quantifier and not yet rejected
+  watch : Bool := false       -- rejected, but the reference state keeps following the core calls: a panic inside the limits is still reported
   prevKeys : List Nat := []
   hist : Hist := {}
   origin : String := ""       -- "C10": a clone or an original that was cloned; "C08": a reloaded graph
@@ -547,7 +548,7 @@ def judgeCore (m : HMon) (op : Op) (o : Obs) : HMon × List (String × String) :
       -- every 24 calls the closure chains of the reference tables are flattened
       let r' := if m.steps % 24 = 23 then compactR m.cap r' else r'
       let m' := { m with r := r', prevKeys := o.keys, hist := hs.update op m.prevKeys o.keys o.payload,
-                         judged := rej = [], steps := m.steps + 1 }
+                         judged := rej = [], watch := rej ≠ [], steps := m.steps + 1 }
       (m', rej)
 
 def noteStats (st : Stats) (m : HMon) (op : Op) (o : Obs) (ever : Bool) : Stats :=
@@ -647,7 +648,7 @@ def judgeLine2 (j : JSt) (lineNo : Nat) (opLine obsLine : String) : JSt :=
       let j := { j with merges := j.merges + 1 }
       match j.getMon a, j.getMon b with
       | some ma, some mb =>
-        if ¬ ma.judged ∨ ¬ mb.judged then j
+        if ¬ ma.judged ∨ ¬ mb.judged then j.setMon a { ma with watch := false }
         else
           match refMerge ma.n ma.cap mb.cap ma.r mb.r l r with
           | none => j.setMon a { ma with judged := false }
@@ -730,7 +731,7 @@ def judgeLine2 (j : JSt) (lineNo : Nat) (opLine obsLine : String) : JSt :=
       let j := { j with scripts := j.scripts + 1 }
       match j.getMon a with
       | some m =>
-        if ¬ m.judged then j
+        if ¬ m.judged then j.setMon a { m with watch := false }
         else
           let prog : List (Option ACmdC) := S.parseScript Ss.isWs Ss.pV Ss.pL Ss.pD text
           let (r', want, k, valid, calls) := refScript m.n m.cap prog m.r [] 0 true []
@@ -835,7 +836,23 @@ def judgeLine2 (j : JSt) (lineNo : Nat) (opLine obsLine : String) : JSt :=
       match j.getMon a with
       | none => j
       | some m =>
-        if ¬ m.judged then j
+        if ¬ m.judged then
+          -- after a rejection the reference keeps following the calls (its state does not depend on what was
+          -- observed): a call inside the limits that panics is a violation of C02/C06/C07 of its own
+          if ¬ m.watch then j
+          else match parseCoreOp (cmd :: rest) with
+            | none => j
+            | some op =>
+              if ¬ okStepB m.n m.cap m.r op then j.setMon a { m with watch := false }
+              else
+                let o := parseObs obsLine
+                if o.status ≠ "ok" then
+                  let j := j.setMon a { m with watch := false }
+                  ["C02", "C06", "C07"].foldl (fun j p => j.reject p lineNo (opLine.trimAscii.toString ++ s!": call inside the limits answered '{o.status}' (after an earlier rejection on this handle)")) j
+                else
+                  let r' := (R.step m.cap m.r op).1
+                  let r' := if m.steps % 24 = 23 then compactR m.cap r' else r'
+                  j.setMon a { m with r := r', steps := m.steps + 1 }
         else match parseCoreOp (cmd :: rest) with
           | none => j
           | some op =>
